@@ -305,10 +305,13 @@ type clientStream struct {
 	respHeaderRecv chan struct{}  // closed when headers are received
 	res            *http.Response // set if respHeaderRecv is closed
 
-	flow        outflow // guarded by cc.mu
-	inflow      inflow  // guarded by cc.mu
-	bytesRemain int64   // -1 means unknown; owned by transportResponseBody.Read
-	readErr     error   // sticky read error; owned by transportResponseBody.Read
+	flow   outflow // guarded by cc.mu
+	inflow inflow  // guarded by cc.mu
+	// unreadReturned records that Response.Body.Close has returned the
+	// flow control of the unread body bytes. Guarded by cc.mu.
+	unreadReturned bool
+	bytesRemain    int64 // -1 means unknown; owned by transportResponseBody.Read
+	readErr        error // sticky read error; owned by transportResponseBody.Read
 
 	reqBody              io.ReadCloser
 	reqBodyContentLength int64         // -1 means unknown
@@ -2243,7 +2246,15 @@ func (b transportResponseBody) Close() error {
 	cs.bufPipe.BreakWithError(errClosedResponseBody)
 	cs.abortStream(errClosedResponseBody)
 
-	unread := cs.bufPipe.Len()
+	// Return the connection-level flow control of the unread data, once:
+	// bufPipe.Len keeps reporting the discarded bytes on later Close calls.
+	cc.mu.Lock()
+	unread := 0
+	if !cs.unreadReturned {
+		cs.unreadReturned = true
+		unread = cs.bufPipe.Len()
+	}
+	cc.mu.Unlock()
 	if unread > 0 {
 		cc.mu.Lock()
 		// Return connection-level flow control.
